@@ -53,6 +53,7 @@ def main():
     with_baseline = "--baseline" in args
     seeded = "--seeded" in args
     only = args[args.index("--only") + 1] if "--only" in args else None
+    skip = args[args.index("--skip") + 1] if "--skip" in args else None  # names containing this text are left out
     if seeded:
         root = os.path.join(VERIF, "seeded")
         items = {}
@@ -75,7 +76,7 @@ def main():
     results = {}
     ok_all = True
     for name, m in items.items():
-        if only and only not in name:
+        if (only and only not in name) or (skip and skip in name):
             continue
         a = run(["git", "-C", REPO, "apply", m["patch"]])
         if a.returncode != 0:
@@ -122,7 +123,7 @@ def main():
             for fld in ("baseline_passed", "baseline_failed", "survives_suite", "doctests_failed"):
                 if fld in prev.get(k, {}) and fld not in rec:
                     rec[fld] = prev[k][fld]
-    if not only:
+    if not only and not skip:
         prev = {k: v for k, v in prev.items() if k in results}
     prev.update(results)
     with open(out, "w", encoding="utf-8") as f:
